@@ -69,7 +69,8 @@ func helperResultsOnSuccess(c *Ctx, rule string) {
 			// only across an error check that succeeded: `<call>#2 == nil`, or the test of the error variable the
 			// result was assigned to (`err == nil` / `φerr == nil`)
 			isErrOK := func(t string) bool {
-				return strings.HasSuffix(t, " == nil") && (strings.Contains(t, "err") || strings.HasSuffix(t, "#2 == nil"))
+				// (φinlN: the temporary that carries an inlined helper's error result, delit.go)
+				return strings.HasSuffix(t, " == nil") && (strings.Contains(t, "err") || strings.HasSuffix(t, "#2 == nil") || strings.HasPrefix(t, "φinl") || strings.HasPrefix(t, "inl"))
 			}
 			_, hit := (&PathQuery{Fn: fn, From: call, Target: func(x ssa.Instruction) bool {
 				c2, isCall := x.(*ssa.Call)
